@@ -117,7 +117,7 @@ pub fn corpus() -> Vec<Vec<u8>> {
 }
 
 pub fn run(ctx: &Ctx) -> Outcome {
-    let max_len = ctx.tier.pick(7, 8);
+    let max_len = ctx.tier.pick(8, 9);
     let mut total = Acc::default();
 
     // (1) all strings over SIGMA up to max_len
@@ -194,7 +194,7 @@ pub fn run(ctx: &Ctx) -> Outcome {
     o.set("exhaustive", json!(true));
     o.set("max_len", json!(max_len));
     o.assume("reference recogniser refb.rs: string lengths may carry leading zeros, integers must be canonical and fit i64, containers must be terminated, keys must be strings, key order/uniqueness not enforced (last duplicate wins)");
-    o.assume("the nesting ladder is a probe outside the exhaustive bound: it only demands that decoding terminates without crashing and agrees with the reference whenever it accepts");
+    o.assume("the nesting ladder is a probe outside the exhaustive bound: it demands that decoding terminates without crashing at every rung, that an accepted input is well-formed, and that well-formed nesting of depth <= 100 is accepted; refusing deeper well-formed nesting with an error is tolerated (a recursion limit is the accepted repair)");
     o
 }
 
@@ -303,6 +303,13 @@ fn nesting_ladder(ctx: &Ctx) -> Value {
                     Ok(verdict) => {
                         // when it accepts, the input must be well-formed (terminated); a refusal of
                         // a very deep but well-formed input is tolerated (probe, see assumptions)
+                        if verdict != "accept" && terminated && depth <= 100 {
+                            ctx.violation(
+                                "rejects-well-formed",
+                                format!("{} properly terminated nested {} are rejected", depth, kind),
+                                json!({"kind": "nest", "target": "bdecoder", "shape": kind, "depth": depth, "terminated": terminated, "stack_kib": 2048}),
+                            );
+                        }
                         if verdict == "accept" && !terminated {
                             ctx.violation(
                                 "accepts-unterminated-container-at-eof",
